@@ -30,6 +30,10 @@ def _leaf(fn):
 
 
 def run(ctx, obs):
+    from ..rules import order as _order
+    _order.contracts(ctx, obs, ['data.computations.average_dataset_by'])
+    if _order.report(ctx, obs, ['data.noise.']) < 1:
+        raise AnalysisError('C14: the means[inverse] obligation of cov_from_unbalanced was not found')
     from ..rules import sweeps
     sweeps.run(ctx, obs, 'C14')
     dof_polynomials(ctx, obs)
